@@ -15,14 +15,21 @@ inductive OpU
   | write (c : Bytes) (fails : Bool)
   | commit (closeFails renameFails unlinkFails : Bool)
   | close (closeFails unlinkFails : Bool)
-  | closeFd
+  | closeFd (closeFails : Bool)
 deriving DecidableEq, Repr
+
+/-- `f.File.Close()` called directly on the embedded file, with a close(2) that can fail: `os.File.Close` marks the
+    descriptor closed before it issues close(2), so the file counts as closed whatever the system call returns -/
+def File.closeFdU (f : File) (closeFails : Bool) : File × Res × List Act2 :=
+  if !f.fdOpen then (f, .closed, [])
+  else ({ f with fdOpen := false }, (if closeFails then .errno else .ok),
+    [if closeFails then .base (.closeFail f.tmp) else .base (.close f.tmp)])
 
 def File.stepU (f : File) : OpU → File × Res × List Act2
   | .write c fails => (f, (f.write c fails).1, (f.write c fails).2.map .base)
   | .commit a b c => f.commitU a b c
   | .close a c => f.closeU a c
-  | .closeFd => (f.closeFd.1, f.closeFd.2.1, f.closeFd.2.2.map .base)
+  | .closeFd a => f.closeFdU a
 
 /-- a whole history: the handle afterwards, the result of every call, every system call issued -/
 def File.stepsU (f : File) : List OpU → File × List Res × List Act2
@@ -67,9 +74,9 @@ def Abs.step (m : Nat) (s : Abs) : OpU → Abs × Res
     | .aborted => (s, .invalid)
     | .writing false => ({ s with phase := .aborted }, .closed)
     | .writing true => ({ s with phase := .aborted }, if a ∨ c then .errno else .ok)
-  | .closeFd =>
+  | .closeFd a =>
     match s.phase with
-    | .writing true => ({ s with phase := .writing false }, .ok)
+    | .writing true => ({ s with phase := .writing false }, if a then .errno else .ok)
     | _ => (s, .closed)
 
 def Abs.steps (m : Nat) (s : Abs) : List OpU → Abs × List Res
